@@ -186,7 +186,7 @@ fn parse_section(
                     // If the section is a host section, parse it as such
                     let host_name = {
                         let raw = section_name.splitn(2, ' ').last().unwrap().trim();
-                        if raw.starts_with('\"') && raw.ends_with('\"') {
+                        if raw.len() >= 2 && raw.starts_with('\"') && raw.ends_with('\"') {
                             raw[1..raw.len() - 1].to_string()
                         } else {
                             raw.to_string()
@@ -317,13 +317,14 @@ fn parse_size(size: &str) -> Result<i64, ()> {
 
         size.parse::<i64>().map_err(|_| ())
     } else {
-        let last_char = size.chars().last().unwrap().to_ascii_uppercase();
-        let number: i64 = size[0..size.len() - 1].parse().map_err(|_| ())?;
+        let (last_char_index, last_char) = size.char_indices().last().unwrap();
+        let last_char = last_char.to_ascii_uppercase();
+        let number: i64 = size[..last_char_index].parse().map_err(|_| ())?;
 
         match last_char {
-            'K' => Ok(number * 1024),
-            'M' => Ok(number * 1024 * 1024),
-            'G' => Ok(number * 1024 * 1024 * 1024),
+            'K' => number.checked_mul(1024).ok_or(()),
+            'M' => number.checked_mul(1024 * 1024).ok_or(()),
+            'G' => number.checked_mul(1024 * 1024 * 1024).ok_or(()),
             '0'..='9' => size.parse::<i64>().map_err(|_| ()),
             _ => Err(()),
         }
